@@ -426,7 +426,7 @@ func (s *Stage) apply(st *state, r Rules) (keep bool, err error) {
 				continue
 			}
 			for _, prm := range s.Params {
-				if prm.Expr == p[0] && p[1] != "" {
+				if prm.Expr == p[0] {
 					st.setExtracted(prm.Name, p[1], r)
 				}
 			}
